@@ -17,7 +17,7 @@ hooks = json.load(open(os.path.join(HERE, "hooks.json")))
 
 checks = []
 for pid in ids:
-    if pid not in PROPS:
+    if pid not in PROPS or pid in na_reasons:
         continue
     c = PROPS[pid]
     checks.append({
